@@ -45,6 +45,29 @@ func (w *FaultWriter) Write(p []byte) (int, error) {
 	return len(p), nil
 }
 
+// writeByte / writeString: the optional fast paths an encoder may look for on its writer; each is
+// one call of the underlying FaultWriter.
+func (w *FaultWriter) writeByte(c byte) error {
+	_, err := w.Write([]byte{c})
+	return err
+}
+
+// FaultByteWriter is a FaultWriter that also implements io.ByteWriter.
+type FaultByteWriter struct{ *FaultWriter }
+
+func (w FaultByteWriter) WriteByte(c byte) error { return w.writeByte(c) }
+
+// FaultStringWriter is a FaultWriter that also implements io.StringWriter.
+type FaultStringWriter struct{ *FaultWriter }
+
+func (w FaultStringWriter) WriteString(s string) (int, error) { return w.Write([]byte(s)) }
+
+// FaultBothWriter implements io.ByteWriter and io.StringWriter.
+type FaultBothWriter struct{ *FaultWriter }
+
+func (w FaultBothWriter) WriteByte(c byte) error              { return w.writeByte(c) }
+func (w FaultBothWriter) WriteString(s string) (int, error) { return w.Write([]byte(s)) }
+
 // InjectedError is the error type used by all fault-injecting doubles, so that
 // monitors can recognise their own errors with errors.Is / ==.
 type InjectedError struct {
